@@ -324,13 +324,13 @@ theorem decode_time_is_castOnly (c : Cfg) (p : TPath) (name kind : String) (s : 
   rw [hrow]
   simp only [hd]
 
-/-- the casters still go through the modelled parsers (`parseYAMLInt` / `parseYAMLFloat` of loader/interpolate.go) -/
+/-- the casters still go through the modelled parsers (`utils.ParseYAMLInt` / `utils.ParseYAMLFloat`, utils/stringutils.go) -/
 theorem casters_are_modelled :
     CV.Gen.c08_casterCalls = [
-      ("toInt", ["int", "int64", "parseYAMLInt", "strconv.Atoi"]),
-      ("toInt64", ["parseYAMLInt", "strconv.ParseInt"]),
-      ("toFloat", ["parseYAMLFloat"]),
-      ("toFloat32", ["float32", "parseYAMLFloat"]),
+      ("toInt", ["int", "int64", "strconv.Atoi", "utils.ParseYAMLInt"]),
+      ("toInt64", ["strconv.ParseInt", "utils.ParseYAMLInt"]),
+      ("toFloat", ["utils.ParseYAMLFloat"]),
+      ("toFloat32", ["float32", "utils.ParseYAMLFloat"]),
       ("toBoolean", ["fmt.Errorf", "logrus.Warnf", "strings.ToLower"])] := by decide
 
 /-- the per-file option sets (files reached through `extends` / `include`) inherit the interpolation switch and the
@@ -357,6 +357,13 @@ theorem devicecount_literal_eq_variable_partial (ds : List Char) (h : CanonicalD
 /-- `count: all` in any ASCII case is -1 -/
 theorem devicecount_all : decodeDeviceCount "all" = some (-1) ∧ decodeDeviceCount "ALL" = some (-1) ∧ decodeDeviceCount "aLl" = some (-1) := by
   decide
+
+/-- round 5 (repair 3b56c47 `NanoCPUs reads a number given as a string like YAML reads the literal`; before it: findings
+    `typed:yaml-number-syntax:{leading-zero,0x}:nanocpus`): the self-decoding `NanoCPUs` reads a string exactly as the
+    `toFloat` caster reads it — both call `utils.ParseYAMLFloat(_, 64)` (pinned by `modelled_functions_are_source`, compared with the model
+    `parseYAMLFloat` by the `c08casters` correspondence) — so `deploy.resources.*.cpus` through a variable is what a cast row would give -/
+theorem nanocpus_reads_like_toFloat (fp : FloatParser) (s : String) :
+    (decodeNanoCPUs fp s).map Val.float = Caster.toFloat.apply fp s := rfl
 
 /-! ## non-vacuity -/
 
